@@ -195,3 +195,57 @@ impl<'a, T> Drop for RwLockWriteGuard<'a, T> {
     self.lock.cv.notify_all();
   }
 }
+
+/// `std::sync::OnceLock` over loom's mutex: initialisation is a scheduling point, the threads that arrive while the value
+/// is being computed wait for it, as with the standard library's.
+pub struct OnceLock<T> {
+  state: Mutex<bool>,
+  value: std::cell::UnsafeCell<Option<T>>,
+}
+
+unsafe impl<T: Send> Send for OnceLock<T> {}
+unsafe impl<T: Send + Sync> Sync for OnceLock<T> {}
+
+impl<T> OnceLock<T> {
+  pub fn new() -> OnceLock<T> {
+    OnceLock { state: Mutex::new(false), value: std::cell::UnsafeCell::new(None) }
+  }
+  pub fn get(&self) -> Option<&T> {
+    let set = self.state.lock().unwrap();
+    if *set {
+      // the value is written once, under the lock, and never moved afterwards
+      unsafe { (*self.value.get()).as_ref() }
+    } else {
+      None
+    }
+  }
+  pub fn set(&self, value: T) -> Result<(), T> {
+    let mut set = self.state.lock().unwrap();
+    if *set {
+      return Err(value);
+    }
+    unsafe { *self.value.get() = Some(value) };
+    *set = true;
+    Ok(())
+  }
+  pub fn get_or_init<F: FnOnce() -> T>(&self, f: F) -> &T {
+    let mut set = self.state.lock().unwrap();
+    if !*set {
+      unsafe { *self.value.get() = Some(f()) };
+      *set = true;
+    }
+    unsafe { (*self.value.get()).as_ref().unwrap() }
+  }
+}
+
+impl<T> Default for OnceLock<T> {
+  fn default() -> Self {
+    OnceLock::new()
+  }
+}
+
+impl<T: std::fmt::Debug> std::fmt::Debug for OnceLock<T> {
+  fn fmt(&self, f: &mut std::fmt::Formatter<'_>) -> std::fmt::Result {
+    write!(f, "OnceLock(..)")
+  }
+}
